@@ -161,6 +161,9 @@ type World struct {
 	Relay4   net.IP
 	Relay6   net.IP
 	AuthCalls int
+	// GenFailNext makes the next n relay allocations fail; QuotaDeny makes the quota handler refuse.
+	GenFailNext int
+	QuotaDeny   bool
 }
 
 // Standard addresses.
@@ -178,6 +181,8 @@ var ClientSpec = map[string]struct {
 	"c2": {&net.UDPAddr{IP: net.IPv4(10, 0, 0, 2).To4(), Port: 4001}, "u2"},
 	"c3": {&net.UDPAddr{IP: net.IPv4(10, 0, 0, 3).To4(), Port: 4000}, "u1"},
 	"c6": {&net.UDPAddr{IP: net.ParseIP("fd00:a::2"), Port: 4000}, "u1"},
+	// IPv4-compatible IPv6 address ::10.0.0.2 with c1's port: differs from c1 only in the first 12 address bytes
+	"c1x": {&net.UDPAddr{IP: net.IP{0, 0, 0, 0, 0, 0, 0, 0, 0, 0, 0, 0, 10, 0, 0, 2}, Port: 4000}, "u2"},
 }
 
 // PeerSpec describes the scripted peers.
@@ -200,10 +205,25 @@ func (g relayGen) ipFor(network string) net.IP {
 	return g.w.Relay4
 }
 
+func (g relayGen) fail() bool {
+	g.w.lifeMu.Lock()
+	defer g.w.lifeMu.Unlock()
+	if g.w.GenFailNext > 0 {
+		g.w.GenFailNext--
+
+		return true
+	}
+
+	return false
+}
+
 func (g relayGen) AllocatePacketConn(c turn.AllocateListenerConfig) (net.PacketConn, net.Addr, error) {
 	g.w.lifeMu.Lock()
 	g.w.GenCalls++
 	g.w.lifeMu.Unlock()
+	if g.fail() {
+		return nil, nil, fmt.Errorf("injected relay allocation failure")
+	}
 	s, err := g.w.Net.ListenUDP(c.Network, &net.UDPAddr{IP: g.ipFor(c.Network), Port: c.RequestedPort})
 	if err != nil {
 		return nil, nil, err
@@ -260,6 +280,7 @@ func NewWorld(cfg Config, clients, peers []string) (*World, error) {
 			return ra.Username, wire.LongTermKey(ra.Username, ra.Realm, p), true
 		},
 		EventHandler: w.eventHandler(),
+		QuotaHandler: func(string, string, net.Addr) bool { return !w.QuotaDeny },
 	}
 	var ph turn.PermissionHandler
 	switch cfg.Policy {
